@@ -24,7 +24,7 @@ ASSUMPTIONS = [
 MINIMUM = {"histories": 400, "signatures": 50, "sweep_fired": 100, "receivers_checked": 800}
 SHARD_TIMEOUT = {"quick": 120, "thorough": 2400}
 
-HOWS = ["close", "close_error", "end_of_exec", "drop", "drop_with_callback"]
+HOWS = ["close", "close_error", "end_of_exec", "end_of_exec_eoferror", "drop", "drop_with_callback"]
 
 
 def shards(tier, seed):
@@ -41,13 +41,15 @@ def shards(tier, seed):
 
 def gen_history(rng):
     how = rng.choice(HOWS)
-    side = "remote" if how == "end_of_exec" else rng.choice(("local", "remote"))
+    side = "remote" if how.startswith("end_of_exec") else rng.choice(("local", "remote"))
     return {
         "how": how, "closer": side, "k": rng.choice((0, 0, 1, 2, 5, 20, 50)),
         "pad": rng.choice((0, 0, 10, 70000)),
         "receivers": [rng.choice(("before", "before", "after")) for _ in range(rng.choice((1, 1, 2, 3)))],
         "waitclosers": [rng.choice(("before", "after")) for _ in range(rng.choice((0, 1, 2)))],
         "make": rng.choice(("newchannel_local", "newchannel_remote")),
+        # the closing side itself receives by callback (its own close must still complete: waitclose there returns)
+        "closer_has_callback": how in ("close", "close_error", "end_of_exec") and rng.random() < 0.3,
     }
 
 
@@ -56,7 +58,13 @@ def run_history(res: Result, lab, h, label, hid):
 
     how = h["how"]
     fin = None
-    if how == "end_of_exec":
+    if how == "end_of_exec_eoferror":
+        # the body ends with an uncaught EOFError (e.g. it read past the end of some other channel or file)
+        def _raise_eof(channel):
+            raise EOFError("body ran into the end of something")
+
+        lc, rc, fin = lab.pair_remote_exec(at_end=_raise_eof)
+    elif how == "end_of_exec":
         lc, rc, fin = lab.pair_remote_exec()
     elif h["make"] == "newchannel_local":
         lc, rc = lab.pair_newchannel_local()
@@ -144,7 +152,7 @@ def run_history(res: Result, lab, h, label, hid):
     def closing_side():
         lab.sched.set_role("closer")
         ch = closer_holder.pop()
-        if how == "drop_with_callback":
+        if how == "drop_with_callback" or h.get("closer_has_callback"):
             ch.setcallback(lambda x: None)
         for s in range(k):
             ch.send((hid, s, pad))
@@ -152,7 +160,7 @@ def run_history(res: Result, lab, h, label, hid):
             ch.close()
         elif how == "close_error":
             ch.close(f"deliberate error {hid}")
-        elif how == "end_of_exec":
+        elif how in ("end_of_exec", "end_of_exec_eoferror"):
             fin.set()
             # the body ends asynchronously and the worker closes the channel itself: waitclose() returning is
             # the API-level sign that this close has completed on the closing side
@@ -160,7 +168,7 @@ def run_history(res: Result, lab, h, label, hid):
                 ch.waitclose(10)
             except BaseException as e:  # noqa
                 closer_log["waitclose_after_exec"] = type(e).__name__
-        if how in ("close", "close_error", "end_of_exec"):
+        if how in ("close", "close_error", "end_of_exec", "end_of_exec_eoferror"):
             closer_log["isclosed"] = ch.isclosed()
             try:
                 ch.send("late")
@@ -317,7 +325,8 @@ def run_shard(spec):
                     break
                 h = gen_history(rng)
                 h["how"] = how
-                if how == "end_of_exec":
+                h["closer_has_callback"] = how in ("close", "close_error", "end_of_exec") and rng.random() < 0.3
+                if how.startswith("end_of_exec"):
                     h["closer"] = "remote"
                 h["k"] = rng.choice((0, 1, 3))
                 h["pad"] = 0
